@@ -87,7 +87,7 @@ CHECKS['C20'] = {
     'assumptions': [],
     'targets': [
         {'name': 'c20_pulsenode', 'src': ['harness/C20_pulsenode.cpp'], 'quick_n': 10000000, 'thorough_n': 80000000, 'maxlen': 400, 'min_nontrivial': 1000000,
-         'class_floors': {'case_with_callback_mutation': 200000, 'case_pulse_fired_nodes_at_two_depths': 100000, 'case_with_deferred_due_node': 20000, 'case_node_invalidated_between_wait_and_pulse': 200000, 'case_callback_destroyed_a_node_off_the_call_stack': 50000}},
+         'class_floors': {'case_with_callback_mutation': 200000, 'case_pulse_fired_nodes_at_two_depths': 100000, 'case_with_deferred_due_node': 20000, 'case_node_invalidated_between_wait_and_pulse': 200000, 'case_callback_destroyed_a_node_off_the_call_stack': 50000, 'case_time_question_answered_by_re_arming_children': 200000}},
     ],
 }
 
@@ -225,7 +225,7 @@ CHECKS['C08'] = {
     'targets': [
         {'name': 'c08_wire', 'src': ['harness/C08_wire.cpp'], 'ccodecs': True, 'quick_n': 1500000, 'thorough_n': 12000000, 'maxlen': 500, 'min_nontrivial': 200000,
          'worker_env': _c08_worker_env, 'post': _c08_post, 'replay_hook': _c08_replay, 'replay_aliases': ['c08_python'],
-         'class_floors': {'case_python_safe': 50000, 'case_nesting_ge_1': 20000, 'case_three_or_more_field_types': 50000, 'emitted_for_python_peer': 20000, 'case_with_zero_length_raw_item': 10000, 'micro_gateway_frame_streams_checked': 100000, 'micro_gateway_stream_with_buffer_full_episodes': 20000}},
+         'class_floors': {'case_python_safe': 50000, 'case_nesting_ge_1': 20000, 'case_three_or_more_field_types': 50000, 'emitted_for_python_peer': 20000, 'case_with_zero_length_raw_item': 10000, 'micro_gateway_frame_streams_checked': 100000, 'micro_gateway_stream_with_buffer_full_episodes': 20000, 'message_sized_to_the_scratch_buffer_boundary': 20000}},
     ],
 }
 
@@ -297,28 +297,28 @@ CHECKS['C18'] = {
 CHECKS['C11'] = {
     'level': 'exploration',
     'technique': 'schedule-exploring property testing: the real muscle::Thread (both signalling mechanisms) runs on the harness-owned scheduler (hooks in Mutex, WaitCondition, Thread lifecycle and the socket wait); generated send/receive/start/shutdown/restart scripts; exactly-once and per-sender FIFO invariants over the history; deadlock detection for lost wake-ups',
-    'level_text': ('Generated (script, schedule) search: owner plus 0-2 extra sender threads send numbered Messages to an echo thread; the owner receives with zero, finite and infinite deadlines; Messages may be queued before start (also with the socket pair allocated beforehand); the internal thread runs the stock loop or an event loop of its own that blocks on the wake-up socket; shutdown+wait, also with replies still uncollected (they must all be there after the join); restart of the same Thread object; every context switch and timeout firing is chosen by the schedule bytes. '
+    'level_text': ('Generated (script, schedule) search: owner plus 0-2 extra sender threads send numbered Messages to an echo thread; the owner receives with zero, finite and infinite deadlines; Messages may be queued before start (also with the socket pair allocated beforehand); the internal thread runs the stock loop or an event loop of its own that blocks on the wake-up socket; in a third of the cases the Thread is constructed with an ICallbackMechanism and the owner collects part of the replies through DispatchCallbacks() / MessageReceivedFromInternalThread() while still blocking for the others; shutdown+wait, also with replies still uncollected (they must all be there after the join); restart of the same Thread object; every context switch and timeout firing is chosen by the schedule bytes. '
                    'Oracle: replies arrive exactly once and in per-sender order, nothing arrives after shutdown, ShutdownInternalThread(true) returns, and no state is reached where every thread is blocked (a lost wake-up is reported as DEADLOCK with the schedule). Held = no explored schedule violated these.'),
     'level_note': SC_NOTE + ' An untimed receive may return B_TIMED_OUT on a stale signal byte (the library\'s own loop treats that as recoverable); scripts retry and count it.',
     'rule': ('Byte-decoded cases: configuration + receive plan + schedule. Non-trivial: at least one preemption and at least two block-then-wake events (so sends and waits actually interleaved). Distinct: hash of configuration and of the choices made.'),
     'assumptions': [],
     'targets': [
-        {'name': 'c11_thread', 'src': ['harness/C11_thread.cpp'], 'quick_n': 150000, 'thorough_n': 1200000, 'maxlen': 300, 'min_nontrivial': 20000, 'budget': 120,
-         'class_floors': {'signalling_socket_pair': 3000, 'signalling_wait_condition': 3000, 'case_messages_queued_before_start': 3000, 'case_restart_of_same_thread_object': 2000, 'case_extra_sender_threads': 3000, 'case_own_event_loop_blocking_on_the_wakeup_socket': 5000, 'case_own_loop_with_sockets_and_messages_before_start': 500, 'case_replies_collected_after_join': 3000, 'case_restart_after_join_with_replies_uncollected': 1000}},
+        {'name': 'c11_thread', 'src': ['harness/C11_thread.cpp'], 'quick_n': 150000, 'thorough_n': 1200000, 'maxlen': 300, 'min_nontrivial': 20000, 'budget': 120, 'stall_is_violation': True,
+         'class_floors': {'signalling_socket_pair': 3000, 'signalling_wait_condition': 3000, 'case_messages_queued_before_start': 3000, 'case_restart_of_same_thread_object': 2000, 'case_extra_sender_threads': 3000, 'case_own_event_loop_blocking_on_the_wakeup_socket': 5000, 'case_own_loop_with_sockets_and_messages_before_start': 500, 'case_replies_collected_after_join': 3000, 'case_restart_after_join_with_replies_uncollected': 1000, 'case_thread_has_a_callback_mechanism': 10000, 'case_replies_delivered_by_dispatch_callbacks': 3000}},
     ],
 }
 
 CHECKS['C19'] = {
     'level': 'exploration',
     'technique': 'schedule-exploring property testing: the real ThreadPool (its pool threads are ordinary muscle Threads that register with the scheduler when the pool demand-starts them) runs on the harness-owned scheduler; generated submission / unregister / re-register scripts from several threads; handler activation log as the history; deadlock detection',
-    'level_text': ('Generated (script, schedule) search: pool sizes 1-3, 1-4 clients, 1-3 submitting threads, handlers that yield inside, unregistration from non-pool threads with Messages still outstanding, re-registration, pool destruction after everything was unregistered or with clients still registered and handlers in flight. '
-                   'Oracle over the activation log: per client exactly-once and in submission order, never two activations of one client at once, never more activations than pool threads, unregister returns only when everything submitted has been handled and no handler is running, every submitted Message is handled by the end, destruction returns, no deadlock. Held = no explored schedule violated these.'),
+    'level_text': ('Generated (script, schedule) search: pool sizes 1-3, 1-4 clients, 1-3 submitting threads, handlers that yield inside, unregistration from non-pool threads with Messages still outstanding, re-registration, in half of the cases a second pool (1-3 threads) to which registered clients are moved directly while their Messages are outstanding and their handlers hand in follow-up work during the move, pool destruction after everything was unregistered or with clients still registered and handlers in flight. '
+                   'Oracle over the activation log: per client exactly-once and in submission order, never two activations of one client at once, never more activations than pool threads (than the two pools together have, when there are two), unregister (and the unregistration implied by a move to another pool) returns only when everything submitted has been handled and no handler is running, every submitted Message is handled by the end, destruction returns, no deadlock (reported by the scheduler; threads blocked where the scheduler cannot see them are reported by the stall watchdog of the runner and count as a violation when the input blocks three times out of three). Held = no explored schedule violated these.'),
     'level_note': SC_NOTE,
-    'rule': ('Byte-decoded cases: configuration + per-submitter scripts + schedule. Non-trivial: an unregistration was issued while Messages of that client were still outstanding, or >= 2 handlers ran in parallel with at least one preemption. Distinct: hash of configuration, scripts and choices.'),
+    'rule': ('Byte-decoded cases: configuration + per-submitter scripts + schedule. Non-trivial: an unregistration or a move to another pool was issued while Messages of that client were still outstanding, or >= 2 handlers ran in parallel with at least one preemption. Distinct: hash of configuration, scripts and choices.'),
     'assumptions': ['clients are unregistered before they themselves are destroyed (documented requirement); the pool may be destroyed first, with clients still registered and Messages pending (a quarter of the cases): its shutdown un-registers them', 'the pool is destroyed only after the submitting threads have finished (a submission racing with the destructor is not a supported use)'],
     'targets': [
-        {'name': 'c19_threadpool', 'src': ['harness/C19_threadpool.cpp'], 'quick_n': 100000, 'thorough_n': 800000, 'maxlen': 400, 'min_nontrivial': 20000, 'budget': 120,
-         'class_floors': {'case_handlers_ran_in_parallel': 5000, 'case_more_clients_than_pool_threads': 15000, 'case_unregister_with_messages_outstanding': 10000, 'case_pool_destroyed_with_clients_registered': 10000, 'case_pool_destroyed_with_messages_pending': 2000}},
+        {'name': 'c19_threadpool', 'src': ['harness/C19_threadpool.cpp'], 'quick_n': 100000, 'thorough_n': 800000, 'maxlen': 400, 'min_nontrivial': 20000, 'budget': 120, 'stall_is_violation': True,
+         'class_floors': {'case_handlers_ran_in_parallel': 5000, 'case_more_clients_than_pool_threads': 15000, 'case_unregister_with_messages_outstanding': 10000, 'case_pool_destroyed_with_clients_registered': 10000, 'case_pool_destroyed_with_messages_pending': 2000, 'case_client_moved_to_another_pool_with_messages_outstanding': 3000, 'case_handler_submitted_follow_up_during_a_pool_move': 1500}},
     ],
 }
 
@@ -359,14 +359,14 @@ CHECKS['C04'] = {
 CHECKS['C13'] = {
     'level': 'exploration',
     'technique': 'model-based property testing over generated command histories on the real server run in-process: every client replays PR_RESULT_INDEXUPDATED entries (clear / insert-at / remove-at) in arrival order starting from the snapshot; at every quiescent point the replayed index is compared with the server\'s index; standing invariants on the server\'s indices',
-    'level_text': ('Same harness as C04 with an index-heavy operation mix (INSERTORDEREDDATA before a sibling / at the end / several at once, SETDATA with ADDTOINDEX, REORDERDATA before a sibling / to the end / out of the index / by wildcard, removals of indexed and plain children, subscribers joining mid-history, GETDATA snapshots). '
+    'level_text': ('Same harness as C04 with an index-heavy operation mix (INSERTORDEREDDATA before a sibling / at the end / several at once, SETDATA with ADDTOINDEX, REORDERDATA before a sibling / to the end / out of the index / by wildcard, removals of indexed and plain children, subscribers joining mid-history, GETDATA snapshots, and sessions that copy one of their subtrees, ordered index included, to a path where nothing is yet: with CloneDataNodeSubtree() or with SaveNodeTreeToMessage() + RestoreNodeTreeFromMessage(), optionally adding the copy to the index of its parent). '
                    'Oracle: each armed replay equals the server\'s index at quiescence; an insert position never exceeds the replayed size; a remove entry names what the replay has at that position; the server\'s index lists only existing children, each once. Held = on every quiescent point of every generated history.'),
-    'level_note': RH_NOTE + ' A replay is armed for a (client,node) pair only once the client has applied a clear entry for that node (the property speaks of a client that starts from the snapshot); entries for unarmed pairs are ignored, not judged. Subtree clone/restore is not generated.',
-    'rule': ('Byte-decoded histories of <= 50 steps. Non-trivial: at least one armed index replay was compared and the history contains a reorder or an indexed removal. Distinct: hash of the decoded step bytes.'),
+    'level_note': RH_NOTE + ' A replay is armed for a (client,node) pair (a) when the client applies a clear entry for that node (the snapshot the property speaks of), (b) at a quiescent point at which the node is under one of the client\'s subscriptions and its index is empty or absent (every later change is reported entry by entry), or (c) at the first insert entry for a node that did not exist at the last quiescent point, under a subscription that was in force then, unless the node was reported REMOVED to that client in between (the client has been told the whole life of the node). Entries for unarmed pairs are ignored, not judged. Copies are made only to destinations that do not exist (the API documents the destination as newly created).',
+    'rule': ('Byte-decoded histories of <= 50 steps. Non-trivial: at least one armed index replay was compared and the history contains a reorder or an indexed removal. (Classes: replay armed from the birth of a node, from an empty index, index of a cloned or restored node judged.) Distinct: hash of the decoded step bytes.'),
     'assumptions': [],
     'targets': [
         {'name': 'c13_index', 'src': ['harness/C04_mirror.cpp'], 'extra_flags': ['-DVF_C13=1'], 'quick_n': 60000, 'thorough_n': 480000, 'maxlen': 500, 'min_nontrivial': 3000, 'budget': 120,
-         'class_floors': {'case_with_reorder': 5000, 'case_with_armed_index_replay_compared': 3000}},
+         'class_floors': {'case_with_reorder': 5000, 'case_with_armed_index_replay_compared': 3000, 'case_index_replayed_from_the_birth_of_its_node': 2000, 'case_index_replayed_from_an_empty_index_at_a_quiescent_point': 5000, 'case_with_subtree_clone_or_restore': 4000, 'case_index_of_a_cloned_or_restored_node_judged': 300}},
     ],
 }
 
@@ -408,7 +408,7 @@ CHECKS['C06'] = {
     'assumptions': [],
     'targets': [
         {'name': 'c06_isolation', 'src': ['harness/C06_isolation.cpp'], 'quick_n': 40000, 'thorough_n': 320000, 'maxlen': 600, 'min_nontrivial': 5000, 'budget': 30,
-         'class_floors': {'mode_isolation': 10000, 'mode_cleanup': 10000, 'case_adversary_addressed_victim_subtree': 3000, 'case_cut_strictly_inside_pending_output': 3000, 'privileged_commands_bounced': 1000, 'case_leaver_dropped_subscriptions_while_muted': 3000}},
+         'class_floors': {'mode_isolation': 10000, 'mode_cleanup': 10000, 'case_adversary_addressed_victim_subtree': 3000, 'case_cut_strictly_inside_pending_output': 3000, 'privileged_commands_bounced': 1000, 'case_leaver_dropped_subscriptions_while_muted': 3000, 'case_server_grants_ban_privileges_but_not_kick': 2000}},
     ],
 }
 
